@@ -7,6 +7,22 @@ check("C01", "exploration", "runtime oracle: independent reader of the target fo
       "Held on every translation executed (about 10^6 per quick run, 5*10^7 thorough): generated common-model documents aimed at the hostile classes (type look-alike strings, YAML indicators, control/BOM/non-character/astral code points, integer boundaries of every width, 17-digit and special floats, depth to 64, MessagePack width thresholds) x 16 format pairs x 3 spellings x slice/scheduled reader x explicit/detected. Sampling of an unbounded space; no exhaustiveness claimed.",
       "Trusts the harness's independent readers (hand-written JSON/MessagePack decoders, libyaml events + own YAML 1.2 core schema, toml_edit walk) and spellers, cross-validated at start-up; libyaml's scanner is shared with xt. TOML order is accepted if it is a stable partition by table-ness (the toml crate's writer order) or the identity.",
       "DESIGN.md 3/C01")
+check("C03", "exploration", "runtime monitor: writer byte log of one Translator over call histories vs per-document concatenation, plus framing by the independent target reader",
+      "Held on every history executed (4*10^4 quick, 1.5*10^6 thorough): N in {0..5,17,300} documents spread over 1-4 calls in mixed source formats and supply modes with every separator style the source allows, documents padded to straddle 8 KiB/16 KiB boundaries, targets JSON/MessagePack/YAML.",
+      "The single-document translation of a value is taken from a conventional spelling of the same value in the same source format; framing is judged by the harness's readers (YAML: explicit document start reported by libyaml).",
+      "DESIGN.md 3/C03")
+check("C06", "exploration", "runtime self-differential: fixed point xt(B->B)(xt(A->B)(x)) and round trip via B against xt(A->A)(x)",
+      "Held on every chain executed (about 10^6 quick): common-model documents x 16 ordered pairs x both clauses with slice/reader chosen per hop, plus extension documents (binary, float32, non-finite floats, non-string keys, TOML date-times) for the fixed-point clause.",
+      "No reference implementation; xt is compared with itself, so a defect shared by both hops is invisible here (C01 covers values).",
+      "DESIGN.md 3/C06")
+check("C08", "exploration", "runtime monitor over call histories: writer byte log + Result of each call on a Translator(to=TOML) against the invariant and mandated refusals",
+      "Held on every history executed (4*10^4 quick, 10^6 thorough): 1-3 calls x 0-3 documents, every root type, null / oversized integer / non-string key / binary planted at random paths, hostile keys, all four sources, slice/reader, short-write writers.",
+      "toml_edit parses the output; null keys, other non-string keys, binary and non-finite floats may be accepted or refused; after a refused first document the fate of later ones is left open.",
+      "DESIGN.md 3/C08")
+check("C10", "exploration", "runtime monitor: detect hook and detected-vs-explicit differential on xt's own output",
+      "Held on every output examined (4*10^4 quick): collection-rooted documents with detection-hostile first keys x 4 output formats x one/many documents, detection observed on a slice and under 3 read schedules, then xt(None->X) vs xt(F->X).",
+      "TOML's two exceptions are decided by the harness's own JSON reader and libyaml-event reader. Empty-table TOML output (zero bytes) is skipped.",
+      "DESIGN.md 3/C10")
 
 for pid in ["C01","C03","C04","C05","C06","C07","C08","C09","C10","C11","C12","C13","C14","C15","C16","C17","C18"]:
     if pid not in CHECKS:
